@@ -46,6 +46,10 @@ pub enum Kind {
 }
 
 /// Routes S can use explicitly, as channel index lists.
+fn rec_hist_any<F: Fn(u64, &crate::rec::HEvent) -> bool>(f: F) -> bool {
+	crate::rec::hist_since(0).iter().any(|(s, e)| f(*s, e))
+}
+
 pub fn s_routes(t: Topology) -> Vec<Vec<usize>> {
 	match t {
 		Topology::Pair => vec![vec![0]],
@@ -1317,12 +1321,19 @@ impl C03 {
 						self.stats.labels.insert("uncommitted-fulfil-resolved-on-chain-after-stale-restart".to_string());
 						return Ok(());
 					}
+					let released_before_crash = rec_hist_any(|s, e| s < crash && matches!(e, crate::rec::HEvent::PersistUpdate { node, steps, .. } if *node == S && steps.iter().any(|k| k == "ReleasePaymentComplete")));
+					let mpp_sibling_after_release = m.kind == Kind::Mpp && tracked_without_preimage && released_before_crash;
 					return Err(fail(
 						"contradictory-terminal-events",
 						format!("PaymentFailed ({:?}) for pay#{} at step {} after PaymentSent at step {} (restarts of S (step, snapshot step): {:?}; the running manager descends from a snapshot older than the PaymentSent: {})", reason, i, at, sent, self.restarts, stale),
 					)
 					.with_key(if stale && !tracked {
 						"contradictory-terminal-events/failed-after-sent/manager-snapshot-predates-sent"
+					} else if stale && mpp_sibling_after_release {
+						// listed finding: a multi-part payment whose claimed part was already reported (PaymentSent handled,
+						// ReleasePaymentComplete written to the monitor) while a sibling part is still tracked without
+						// preimage; a further restart from the old manager re-creates the payment from that sibling only
+						"contradictory-terminal-events/failed-after-sent/mpp-sibling-tracked-after-release-payment-complete"
 					} else if stale {
 						"contradictory-terminal-events/failed-after-sent/monitor-still-tracked-the-htlc"
 					} else {
